@@ -213,6 +213,9 @@ class Probe:
         self.distinct = len(self.table) == self.n
         self.fresh = {}
         self.rk, self.lst, self.payload = rk, lst, payload
+        self.unmasked = None     # linear indices of the unmasked pixels (native-stored input grids)
+        self.ret = "ndarray"     # "struct": return structures derived from the input grid instead of plain ndarrays
+        self.hook = None         # re-entrant user function: called once, before the function computes its own values
         self.calls = 0
         self.recv = np.zeros((0, 2))
         self.rid = []
@@ -233,13 +236,27 @@ class Probe:
 
     def __call__(self, grid):
         self.calls += 1
+        if self.hook is not None:
+            hook, self.hook = self.hook, None
+            hook()
         a = np.array(grid, dtype=float)
+        native_shape = None
+        if a.ndim == 3 and a.shape[-1] == 2 and self.unmasked is not None:
+            # a native-stored grid [ny, nx, 2]: the function is evaluated at every entry; what it received at the unmasked
+            # pixels (row-major) is what is judged, and the values go back in the same layout
+            native_shape = a.shape[:2]
+            a = a.reshape(-1, 2)
         if a.ndim != 2 or a.shape[-1] != 2:
             self.bad = f"function received an array of shape {a.shape}"
             a = a.reshape(-1, 2) if a.size % 2 == 0 else np.zeros((0, 2))
-        self.recv = a.copy()
-        self.rid = self.tags(a)
-        ids = np.asarray(self.rid, dtype=int)
+        alltags = self.tags(a)
+        if native_shape is not None:
+            self.recv = a[self.unmasked].copy()
+            self.rid = [alltags[k] for k in self.unmasked]
+        else:
+            self.recv = a.copy()
+            self.rid = alltags
+        ids = np.asarray(alltags, dtype=int)
 
         def comp(e, c):
             if self.payload is None:
@@ -247,9 +264,20 @@ class Probe:
             return self.payload[e][c][ids]
 
         def el(e):
-            return comp(e, 0) if self.rk == "values" else np.stack([comp(e, 0), comp(e, 1)], axis=-1)
+            v = comp(e, 0) if self.rk == "values" else np.stack([comp(e, 0), comp(e, 1)], axis=-1)
+            if native_shape is not None:
+                v = v.reshape(native_shape + v.shape[1:])
+            return self.struct(v, grid, native_shape is not None) if self.ret == "struct" else v
 
         return [el(0), el(1)] if self.lst else el(0)
+
+    def struct(self, v, grid, native):
+        """A structure derived from the input grid, holding the values v (arithmetic on the grid / built on the grid's mask)."""
+        import autoarray as aa
+
+        if self.rk == "pairs":
+            return (0.0 * grid + v) if self.api != "to_vector_yx" else aa.VectorYX2D(values=v, grid=grid, mask=grid.mask, store_native=native)
+        return aa.Array2D(values=v, mask=grid.mask, store_native=native)
 
 
 _CLS = {}
@@ -509,6 +537,16 @@ def build_grid(inst):
     """The grid of the instance, as an object of the instance's concrete class."""
     grid = _build_base_grid(inst)
     cls, gk = inst.get("cls", "base"), inst["gk"]
+    if gk == "g2d" and inst.get("store", "slim") != "slim":
+        import autoarray as aa
+
+        if inst["store"] == "native_view":
+            grid = grid.native
+        else:
+            grid = aa.Grid2D(values=np.array(grid.native, dtype=float), mask=grid.mask, store_native=True)
+        if np.array(grid).ndim != 3:
+            raise core.MachineryError(f"could not build a native-stored Grid2D for {inst}")
+        return grid
     if cls == "base" or gk == "nd":
         return grid
     import autoarray as aa
@@ -671,14 +709,21 @@ def _containers(rec, inst, res, call, grid, coords, two_d):
     ok = True
     els2 = []
     try:
+        if call is None:
+            raise LookupError("no payload run")
         _, _, res2 = call(payload)
         els2 = list(res2) if isinstance(res2, list) else [res2]
         ok = len(els2) == len(els)
         for e, el in enumerate(els2[: len(els)]):
             ok = ok and _payload_ok(el, e, rk, "slim", rec["out"][e], payload)
+    except LookupError:
+        ok, els2 = True, []
     except Exception:  # noqa
         ok = False
     if two_d:
+        # the container as it is stored (no .slim / .native view): one entry per unmasked pixel, in slim order
+        rec["raw"] = [_tags_of(el, e, rk, "__raw__") for e, el in enumerate(els)]
+        rec["rawdim"] = [int(np.array(el).ndim) for el in els]
         rec["nat"] = [_tags_of(el, e, rk, "native") for e, el in enumerate(els)]
         for e, el in enumerate(els2[: len(els)] if ok else []):
             ok = ok and _payload_ok(el, e, rk, "native", rec["nat"][e], payload)
@@ -719,6 +764,56 @@ def _grid_tags(grid, built):
     return [k if ok else exact.OFF for k, ok in enumerate(same.tolist())]
 
 
+INNER_GRIDS = {"g2d": {"h": 1, "w": 2, "u": [0, 1]}, "irr": {"h": 1, "w": 2, "u": [0, 1]}, "g1d": {"h": 1, "w": 3, "u": [0, 2]}}
+
+
+def _reenter(prof, outer_probe, inst, meth, out):
+    """The user function, while being evaluated on grid A, evaluates the SAME decorated method and ANOTHER decorated method of
+    the same object on a second grid B; each inner result is abstracted into its own record, judged against grid B."""
+    gkB = inst["inner"]
+    other = "to_grid_from" if meth == "to_array_from" else "to_array_from"
+    try:
+        for m in (meth, other):
+            apiB = m[:-5]
+            if apiB == "to_vector_yx" and gkB == "g1d":
+                continue
+            instB = complete(dict(INNER_GRIDS[gkB], api=apiB, gk=gkB, rk=_rk_of(apiB), lst=False, par=[0, 0, 0, 0], depth=0, flag=False), 11)
+            gridB = build_grid(instB)
+            builtB = _snapshot(gridB)
+            recB = {"p": "C17", "api": apiB, "gk": gkB, "cls": "base", "rk": instB["rk"], "lst": False, "h": instB["h"], "w": instB["w"],
+                    "u": list(instB["u"]), "raised": False, "inst": dict(instB, inner_of=inst["api"]), "hid": 0, "step": 0, "ops": [],
+                    "store": "slim", "ret": "ndarray", "inner": "none", "tcount": 0, "depth": 0, "flag": False}
+            pB = Probe(builtB.reshape(-1, 2) if gkB != "g1d" else np.zeros((0, 2)), instB["rk"], False)
+            pB.api = apiB
+            prof.probe = pB
+            try:
+                resB = getattr(prof, m)(gridB)
+            except Exception as e:  # noqa
+                recB["raised"], recB["exc"] = True, _exc(e)
+                out.append(recB)
+                continue
+            finally:
+                prof.probe = outer_probe
+            recB.update({"calls": pB.calls, "rid": list(pB.rid), "islist": isinstance(resB, list), "kinds": [], "out": [], "payload_ok": False})
+            two_d = gkB == "g2d"
+            if two_d:
+                recB.update({"raw": [], "rawdim": [], "nat": [], "rh": 0, "rw": 0, "ru": [], "geo_in": [0, 0, 0, 0], "geo_out": [0, 0, 0, 0], "geo_ok": False})
+            if apiB == "to_vector_yx":
+                recB["vgrid"] = []
+            try:
+                _containers(recB, instB, resB, None, gridB, builtB.reshape(-1, 2) if gkB != "g1d" else None, two_d)
+            except Exception as e:  # noqa
+                recB["bad_container"] = _exc(e)
+            if gkB == "g1d":
+                aq, D = line_direction(0.0)
+                S = min(4096, _pow2_floor(MAXRS / max(1.0, float(np.max(np.abs(builtB))) / instB["tau"] + 1.0)))
+                recB.update({"S": S, "s": instB["sx"], "n1": instB["w"], "o": instB["ox"], "q": _fix(pB.recv, S / instB["tau"]), "aq": aq, "D": D})
+            recB["gafter"] = _grid_tags(gridB, builtB)
+            out.append(recB)
+    finally:
+        prof.probe = outer_probe
+
+
 def record_for(inst, shared=None):
     """Run the instance through the real decorators and abstract what happened.  `shared` = {"grid", "built"}: the call is
     one of a history of calls on ONE grid object and is judged against the coordinates that object was BUILT with."""
@@ -732,7 +827,11 @@ def record_for(inst, shared=None):
     centre = (inst["cy"] * tau, inst["cx"] * tau)
     angle = None if inst["angle"] <= -999 else inst["angle"]
     grid = shared["grid"] if shared else build_grid(inst)
-    built = shared["built"] if shared else _snapshot(grid)
+    native_in = gk == "g2d" and inst.get("store", "slim") != "slim"
+    reader = (lambda: grid.slim) if native_in else (lambda: grid)     # the caller's coordinates, one row per unmasked pixel
+    built = shared["built"] if shared else _snapshot(reader())
+    rec.update({"store": inst.get("store", "slim"), "ret": inst.get("ret", "ndarray"), "inner": inst.get("inner", "none")})
+    inner_recs = []
     rec["hid"], rec["step"] = (shared["hid"], shared["step"]) if shared else (0, 0)
     rec["ops"] = [list(o) for o in shared["ops"]] if shared else []
     if shared and gk != "g1d":
@@ -753,9 +852,14 @@ def record_for(inst, shared=None):
 
     def call(payload):
         probe = Probe(expected, rk, lst, payload)
+        probe.api, probe.ret = api, inst.get("ret", "ndarray")
+        if native_in:
+            probe.unmasked = list(inst["u"])
         prof = cls(probe, centre=centre, angle=angle, quarter=inst["quarter"], depth=max(inst["depth"], 1), keep=inst["keep"])
         meth = {"project": "project_from", "transform": "transform_from", "reloc": "reloc_from"}.get(api, api + "_from")
         kw = {"is_transformed": True} if (api == "transform" and inst["flag"]) else {}
+        if inst.get("inner", "none") != "none":
+            probe.hook = lambda: _reenter(prof, probe, inst, meth, inner_recs if payload is None else [])
         return probe, prof, getattr(prof, meth)(grid, **kw)
 
     try:
@@ -763,7 +867,7 @@ def record_for(inst, shared=None):
     except Exception as e:  # noqa
         rec["raised"] = True
         rec["exc"] = _exc(e)
-        rec["gafter"] = _grid_tags(grid, built)
+        rec["gafter"] = _grid_tags(reader(), built)
         return rec
     rec["calls"] = probe.calls
     rec["rid"] = list(probe.rid)
@@ -779,7 +883,7 @@ def record_for(inst, shared=None):
         two_d = gk == "g2d" and api != "project"
         rec.update({"islist": isinstance(res, list), "kinds": [], "out": [], "payload_ok": False})
         if two_d:
-            rec.update({"nat": [], "rh": 0, "rw": 0, "ru": [], "geo_in": [0, 0, 0, 0], "geo_out": [0, 0, 0, 0], "geo_ok": False})
+            rec.update({"raw": [], "rawdim": [], "nat": [], "rh": 0, "rw": 0, "ru": [], "geo_in": [0, 0, 0, 0], "geo_out": [0, 0, 0, 0], "geo_ok": False})
         if api == "to_vector_yx":
             rec["vgrid"] = []
         try:
@@ -822,8 +926,10 @@ def record_for(inst, shared=None):
         rec.update({"R": R, "S": S, "pt": _exact_units(lat, tau), "tiny": tiny, "q": _fix(recv, S / tau)})
     if shared and gk in ("g2d", "irr") and (api in WRAPS or api == "project" and gk == "irr"):
         rec["recvu"] = _units_or_off(recv, tau)
+    if inner_recs:
+        rec["_inner"] = inner_recs
     # ---- the caller's grid object, read again after everything that was done with it
-    rec["gafter"] = _grid_tags(grid, built)
+    rec["gafter"] = _grid_tags(reader(), built)
     return rec
 
 
@@ -1020,7 +1126,9 @@ def _many(insts):
     out = []
     for inst in insts:
         try:
-            out.append(record_for(inst))
+            r = record_for(inst)
+            out.extend(r.pop("_inner", []))
+            out.append(r)
         except exact.OffLattice as e:
             raise core.MachineryError(f"driver produced an off-lattice instance {inst}: {e}")
     return out
@@ -1082,7 +1190,9 @@ def expected_count(b):
     cls = (6 * mc + len(b["pgeoms"]) * aqs * mc + 2 * len(b["depths"]) * mc + 3 * len(b["geoms"]) * mc) \
         + 2 * (6 * lc + 2 * lc + 2 * len(b["depths"]) * lc + 3 * lc * len(rs)) \
         + (4 * m1 + aqs * m1)
-    return {"wrap": wrap, "project": proj, "transform": trans, "reloc": reloc, "tiny": tiny, "classes": cls}
+    cls += 5 * 6 * mc                              # native-stored inputs x structure results (all but the default pair)
+    nre = 3 * (6 * mc + 6 * lc + 4 * m1)           # re-entrant functions: three kinds of inner grid
+    return {"wrap": wrap, "project": proj, "transform": trans, "reloc": reloc, "tiny": tiny, "classes": cls + nre, "_three_state": nre}
 
 
 def enumerate_instances(ctx, b):
@@ -1105,6 +1215,7 @@ def enumerate_instances(ctx, b):
     ])
     want = expected_count(b)
     # TLC computes initial states in one thread and slows down superlinearly with their number: split large bounds over runs
+    three = want.pop("_three_state")
     groups = [["wrap", "project", "transform", "reloc", "tiny", "classes"]] if sum(want.values()) < 15000 else \
              [["wrap"], ["project", "transform"], ["reloc"], ["tiny", "classes"]]
 
@@ -1114,7 +1225,7 @@ def enumerate_instances(ctx, b):
                       timeout=3000, coverage=True, workers=max(2, (os.cpu_count() or 4) // len(groups)))
         got = res.by_kind("inst")
         n = sum(want[f] for f in fams)
-        if len(got) != n or res.distinct != 2 * n:
+        if len(got) != n or res.distinct != 2 * n + (three if "classes" in fams else 0):
             raise core.MachineryError(f"Decorators.tla {fams} enumerated {len(got)} instances / {res.distinct} states, expected {n}")
         return got
 
